@@ -305,7 +305,7 @@ fn main() {
         transitions: acc.get("calls"),
         traces_validated: cases,
         distinct_nontrivial: acc.get("decode_agreed"),
-        rule: format!("{programs} struct definitions enumerated at build time over the attribute grammar (all one-field structs over position {{positional, one-byte BMP, 1Fxx BMP, TLV}} x length {{none, Fixed, LLVAR, LLLVAR, TLV}} x 17 type/encoding kinds and 6 nested structs x {{bare, Option, Vec}}; all ordered pairs over a 20-kind alphabet and all ordered triples over an 8-kind alphabet respecting 'untagged before tagged'; nesting depth 3 through every length style and wrapper; an 8-field struct with all 256 presence patterns; every one-byte and selected two-byte tag numbers; a cross-section with zvt_control_field) compiled with the real derive macro x the product of small per-field value alphabets. Oracle: generated serialiser == reference codec on the emitted layout description for every encodable value; for canonical values the generated deserialiser returns the natively built value and no remainder; decoding always under the panic/allocation/progress monitors. distinct_nontrivial = canonical values decoded back"),
+        rule: format!("{programs} struct definitions enumerated at build time over the attribute grammar (all one-field structs over position {{positional, one-byte BMP, 1Fxx BMP, TLV}} x length {{none, Fixed, LLVAR, LLLVAR, TLV}} x 17 type/encoding kinds and 6 nested structs x {{bare, Option, Vec}}; all ordered pairs over a 24-kind alphabet and all ordered triples over an 8-kind alphabet respecting 'untagged before tagged'; nesting depth 3 through every length style and wrapper; an 8-field struct with all 256 presence patterns; every one-byte and selected two-byte tag numbers; a cross-section with zvt_control_field) compiled with the real derive macro x the product of small per-field value alphabets. Oracle: generated serialiser == reference codec on the emitted layout description for every encodable value; for canonical values the generated deserialiser returns the natively built value and no remainder; decoding always under the panic/allocation/progress monitors. distinct_nontrivial = canonical values decoded back"),
         exhaustive: true,
         required_witnesses: vec!["generated serialisers agreed with the declared layout".into(), "generated deserialisers inverted the serialisers".into()],
         assumptions: vec![
